@@ -334,7 +334,7 @@ def translate(hist, obs, ext=False):
                     return clist(terms), len(terms), "crash-in-plain-history", meta
                 k = len([c for c in creates if not c[2]])
                 t3 = "(PCrashBind %s %s %s %s %s)" % (cstr(op["ns"]), cstr(op["name"]), cstr(o.get("uid", "")), cstr(o.get("node", op["node"])), cnat(k))
-                terms.append("(" + t3 + ", (R1 RErr), " + cwdump(d) + ")")
+                terms.append("(" + t3 + ", (R1 RErr), " + "(Some " + cwdump(d) + ")" + ")")
                 meta.append((k, len(terms) - 1, t3))
                 prev = d
                 continue
@@ -423,6 +423,34 @@ def translate(hist, obs, ext=False):
                 return clist(terms), len(terms), "store-fault-in-sync", meta
             t = "(PSyncPod %s %s)" % (cpk(op["ns"], op["name"]), cfaults())
             out = "ROk"
+        elif k == "pool_race":
+            # a pool request and a Filter of a pod of that pool, issued concurrently: both hold the pool mutex, so the run is the
+            # request followed by the filter - unless they overlapped, which no sequential model step describes
+            if ext is False or o.get("filter_during_request"):
+                return clist(terms), len(terms), "concurrent-sections-overlapped" if o.get("filter_during_request") else "pool-request-in-plain-history", meta
+            cnt = len([e for e in (prev or {"alloc": []})["alloc"] if e[1].startswith("pool__%s_" % op["name"])])
+            need = max(0, op["size"] - cnt)
+            creates = [c for c in calls if c[0] == "create"]
+            mine = creates[:need]
+            t2 = "(PApiPool %s %s true %s None)" % (cstr(op["name"]), cN(op["size"]), clist(cN(s2ip(c[1])) for c in mine))
+            out2 = "(RPool %s)" % {"ok": "PoolOk", "notenough": "PoolNotEnough"}.get(res, "PoolErr")
+            rest = [c for c in calls if c not in mine]
+            w2 = [c for c in rest if c[0] in ("create", "get")]
+            sp = specs.get((op["ns"], op["pod"]))
+            if sp is None:
+                return clist(terms), len(terms), "unknown-pod", meta
+            t1 = "(PFilter %s %s %s %s)" % (cpk(op["ns"], op["pod"]), clist(cstr(n) for n in op["nodes"]),
+                                           coracle(None, s2ip(w2[0][1]) if w2 else None), cfaults())
+            out1 = "(RNodes %s)" % clist(cstr(n) for n in o.get("nodes") or []) if not o.get("filter_err") else "RErr"
+            # the state between the two is not observed: the composite is compared after the second step only
+            terms.append("(" + ("(P2 %s)" % t2 if ext == 3 else t2) + ", " + out2 + ", " + "None" + ")")
+            t1w, out1w = "(P1 %s)" % t1, "(R1 %s)" % out1
+            if ext == 3:
+                t1w = "(P2 %s)" % t1w
+            terms.append("(" + t1w + ", " + out1w + ", " + "(Some " + cwdump(d) + ")" + ")")
+            meta.append((k, len(terms) - 1, t1))
+            prev = d
+            continue
         elif k == "api_pool":
             if not ext:
                 return clist(terms), len(terms), "pool-request-in-plain-history", meta
@@ -437,7 +465,7 @@ def translate(hist, obs, ext=False):
             out2 = "(RPool %s)" % {"ok": "PoolOk", "notenough": "PoolNotEnough"}.get(res, "PoolErr")
             if ext == 3:
                 t2 = "(P2 %s)" % t2
-            terms.append("(" + t2 + ", " + out2 + ", " + cwdump(d) + ")")
+            terms.append("(" + t2 + ", " + out2 + ", " + "(Some " + cwdump(d) + ")" + ")")
             meta.append((k, len(terms) - 1))
             prev = d
             continue
@@ -452,7 +480,7 @@ def translate(hist, obs, ext=False):
             t, out = "(P1 %s)" % t, "(R1 %s)" % out
         if ext == 3:
             t = "(P2 %s)" % t
-        terms.append("(" + t + ", " + out + ", " + cwdump(d) + ")")
+        terms.append("(" + t + ", " + out + ", " + "(Some " + cwdump(d) + ")" + ")")
         meta.append((k, len(terms) - 1, t))
         prev = d
     return clist(terms), len(terms), None, meta
